@@ -61,19 +61,33 @@ class Sink:
         self.srv.close()
 
 
-def free_port():
-    s = socket.socket(socket.AF_INET, socket.SOCK_DGRAM); s.bind(("127.0.0.1", 0)); p = s.getsockname()[1]; s.close(); return p
+def free_port(tcp=False):
+    s = socket.socket(socket.AF_INET, socket.SOCK_STREAM if tcp else socket.SOCK_DGRAM); s.bind(("" if tcp else "127.0.0.1", 0)); p = s.getsockname()[1]; s.close(); return p
 
 
 class Collector:
     def __init__(self, d, sink_port):
         self.d = d
-        self.ports = {k: free_port() for k in ("ipfix", "nf9", "nf5", "sflow", "stats")}
+        self.ports = {k: free_port(tcp=(k == "stats")) for k in ("ipfix", "nf9", "nf5", "sflow", "stats")}
         open(os.path.join(d, "vflow.conf"), "w").write("")
         open(os.path.join(d, "mq.conf"), "w").write("url: 127.0.0.1:%d\nprotocol: tcp\nretry-max: 2\n" % sink_port)
         self.p = None
 
-    def start(self):
+    def start(self, retries=2):
+        """start the binary; when a port it was given has been taken by someone else in the meantime, take new ports and try again"""
+        for attempt in range(retries + 1):
+            if self.start1():
+                return True
+            try:
+                self.err.seek(0); msg = self.err.read()
+            except Exception:
+                msg = ""
+            if "address already in use" not in msg:
+                return False
+            self.ports = {k: free_port(tcp=(k == "stats")) for k in self.ports}
+        return False
+
+    def start1(self):
         args = [os.path.join(vf.HARNESS, "bin", "vflow"), "-config", os.path.join(self.d, "vflow.conf"), "-mqueue", "rawSocket", "-mqueue-conf", "mq.conf",
                 "-ipfix-port", str(self.ports["ipfix"]), "-netflow9-port", str(self.ports["nf9"]), "-netflow5-port", str(self.ports["nf5"]),
                 "-sflow-port", str(self.ports["sflow"]), "-stats-http-port", str(self.ports["stats"]), "-stats-format", "restful",
